@@ -13,6 +13,18 @@ from simkit.rng import seed_globals
 from simkit.world import InvalidScenario, Monitor, result, run_sim
 
 CLS = "PaxosNode"
+FALSY = [0, "", False, [], 0.0]   # legal proposal values that are falsy; [] stands for the empty tuple ()
+
+
+def K(v):
+    """Type-aware identity of a value: 0, 0.0, False, "" and () are pairwise different proposals."""
+    return (type(v).__name__, v)
+
+
+def _rt(v):
+    """Scenario (JSON) value -> runtime value."""
+    return () if v == [] and isinstance(v, list) else v
+
 KLASSES = ("px-live", "px-clean3", "px-2of3", "px-nofault", "px-faulty")
 
 
@@ -45,6 +57,12 @@ def gen(rng):
         else:
             t = t0 + rng.choice([0.0, rng.uniform(0, 4 * scale), rng.uniform(0, 30 * scale), rng.uniform(0, 2 * retry)])
         props.append({"t": round(t, 5), "node": p, "value": f"v{p}"})
+    if rng.random() < 0.35:  # falsy-but-legal values, pairwise distinguishable by (type, value)
+        pool = list(FALSY)
+        rng.shuffle(pool)
+        for q in props:
+            if rng.random() < 0.6:
+                q["value"] = pool.pop()
     if klass in ("px-nofault", "px-faulty", "px-2of3") and rng.random() < 0.25:
         for _ in range(rng.choice([1, 1, 2])):
             q = rng.choice(props)
@@ -81,9 +99,12 @@ def _validate(sc):
         raise InvalidScenario("no proposals")
     by_node = {}
     for p in props:
-        if not 0 <= p.get("node", -1) < n or p.get("t", -1) < 0 or not isinstance(p.get("value"), str) or not p["value"]:
+        v = p.get("value")
+        ok = (isinstance(v, str) or (isinstance(v, (int, float, bool)) and v == 0) or (isinstance(v, list) and not v)) \
+            and "value" in p
+        if not 0 <= p.get("node", -1) < n or p.get("t", -1) < 0 or not ok:
             raise InvalidScenario("proposal")
-        if by_node.setdefault(p["node"], p["value"]) != p["value"]:
+        if by_node.setdefault(p["node"], K(_rt(v))) != K(_rt(v)):
             raise InvalidScenario("one value per proposer")
     if len(set(by_node.values())) != len(by_node):
         raise InvalidScenario("values must be unique per proposer")
@@ -140,7 +161,8 @@ def run(sc):
     pr = dict.fromkeys(["px_promise_beyond_quorum", "px_late_promise_carried_accepted_value", "px_retry_after_nack",
                         "px_competing_ballots", "px_decided_via_learn", "px_value_adopted_from_promise",
                         "px_accepted_for_stale_ballot", "px_future_resolved", "px_proposal_skipped_node_down",
-                        "px_reproposal", "px_decided_on_retried_ballot", "px_four_proposers"], 0)
+                        "px_reproposal", "px_decided_on_retried_ballot", "px_four_proposers", "px_falsy_value_proposed",
+                        "px_falsy_value_adopted_from_promise"], 0)
     retried = set()            # (proposer, ballot number) of ballots created by PaxosRetry
 
     def check_futures():
@@ -154,10 +176,10 @@ def run(sc):
             if not nd.is_decided:
                 J.coarse("future-is-decided-value", "resolved-while-node-undecided",
                          f"{nd.name}'s propose() future resolved with {fv!r} but the node reports no decision")
-            if fv != nd.decided_value:
+            if K(fv) != K(nd.decided_value):
                 J.coarse("future-is-decided-value", "differs-from-node-decision",
                          f"{nd.name}'s propose() future resolved with {fv!r}; the node reports decided value {nd.decided_value!r}")
-            if first and fv != first[0][1]:
+            if first and K(fv) != K(first[0][1]):
                 J.coarse("future-is-decided-value", "differs-from-cluster-decision",
                          f"{nd.name}'s propose() future resolved with {fv!r}; {first[0][0]} decided {first[0][1]!r}")
 
@@ -170,9 +192,12 @@ def run(sc):
                 return None
             if nd.name in own_value:
                 pr["px_reproposal"] = 1
-            proposed.add(p["value"])
-            own_value[nd.name] = p["value"]
-            fut = nd.propose(p["value"])
+            val = _rt(p["value"])
+            if not val and val is not None:
+                pr["px_falsy_value_proposed"] = 1
+            proposed.add(K(val))
+            own_value[nd.name] = K(val)
+            fut = nd.propose(val)
             futures.append([nd, fut, False])
             out = None if fut.is_resolved else nd.start_phase1()
             check_futures()
@@ -185,28 +210,30 @@ def run(sc):
     def on_accept_send(md):
         b = (md["ballot_number"], md["ballot_node"])
         v = md["value"]
-        if v not in proposed:
+        if K(v) not in proposed:
             if v is None:
                 detail = "None-for-superseded-ballot" if b[0] < cur_bn.get(b[1], 0) else "None"
             else:
                 detail = "unproposed"
             J.fine("accept-value-proposed", detail,
-                   f"{b[1]} sends Accept(ballot={b}, value={v!r}); proposed so far: {sorted(proposed)}; "
+                   f"{b[1]} sends Accept(ballot={b}, value={v!r}); proposed so far: {sorted(map(repr, proposed))}; "
                    f"its current ballot number is {cur_bn.get(b[1])}")
         if b in accept_val:
-            if accept_val[b] != v:
+            if K(accept_val[b]) != K(v):
                 beyond = promises.get((b[1], b[0]), 0) + 1 > quorum
                 J.fine("one-value-per-ballot", "after-promise-beyond-quorum" if beyond else "other",
                        f"{b[1]} sent Accept(ballot={b}, value={accept_val[b]!r}) and now sends Accept(ballot={b}, value={v!r}) "
                        f"after {promises.get((b[1], b[0]), 0)} promises from peers (quorum {quorum} incl. itself)")
         else:
             accept_val[b] = v
-        if chosen and chosen[0][0] != v and b > chosen[0][1]:
+        if chosen and K(chosen[0][0]) != K(v) and b > chosen[0][1]:
             J.fine("accept-respects-chosen", "higher-ballot-other-value",
                    f"{chosen[0][0]!r} is chosen (accepted by {quorum} acceptors at ballot {chosen[0][1]}), yet {b[1]} sends "
                    f"Accept(ballot={b}, value={v!r})")
-        if v is not None and v != own_value.get(b[1]):
+        if v is not None and K(v) != own_value.get(b[1]):
             pr["px_value_adopted_from_promise"] = 1
+            if not v:
+                pr["px_falsy_value_adopted_from_promise"] = 1
 
     def observe_acceptor(x, et):
         pb, ab = x._promised_ballot, x._accepted_ballot
@@ -223,10 +250,10 @@ def run(sc):
         if ab is not None:
             key = (ab.number, ab.node_id)
             tab = acc.setdefault(key, {})
-            tab.setdefault(x.name, set()).add(x._accepted_value)
+            tab.setdefault(x.name, set()).add(K(x._accepted_value))
             if not chosen:
                 v = x._accepted_value
-                if sum(1 for vals in tab.values() if v in vals) >= quorum:
+                if sum(1 for vals in tab.values() if K(v) in vals) >= quorum:
                     chosen.append((v, key))
 
     def observe_decision(x, ev, md):
@@ -236,13 +263,13 @@ def run(sc):
             return
         v = x.decided_value
         if x.name in decided:
-            if decided[x.name] != v:
+            if K(decided[x.name]) != K(v):
                 J.coarse("stability", "decided-value-changed", f"{x.name} reported {decided[x.name]!r}, now reports {v!r}")
             return
         et = ev.event_type
         if et == "PaxosDecided":
             pr["px_decided_via_learn"] = 1
-            if all(v != d for d in decided.values()):
+            if all(K(v) != K(d) for d in decided.values()):
                 J.fine("learned-value-was-decided", "nobody-decided-it",
                        f"{x.name} learned decision {v!r} from a PaxosDecided message but no node had decided it")
         else:
@@ -251,25 +278,25 @@ def run(sc):
             if (x.name, bn) in retried:
                 pr["px_decided_on_retried_ballot"] = 1
             table = acc.get(b, {})
-            holders = sorted(a for a, vals in table.items() if v in vals)
+            holders = sorted(a for a, vals in table.items() if K(v) in vals)
             if len(holders) < quorum:
                 parts = []
                 if len(table) < quorum:
                     tally = accepted_msgs.get((x.name, bn), 0) + (1 if x.name in table else 0)
                     parts.append("same-acceptor-counted-twice" if tally >= quorum else "fewer-accepted-responses-than-quorum")
-                if not table or any(v not in vals for vals in table.values()):
+                if not table or any(K(v) not in vals for vals in table.values()):
                     parts.append("value-differs-from-accepted" + ("-None" if v is None else ""))
                 detail = "+".join(parts)
                 shown = {a: sorted(map(repr, vs)) for a, vs in sorted(table.items())}
                 J.fine("decide-needs-quorum-accepted", detail,
                        f"{x.name} decides {v!r} on {et} for ballot {b}; acceptors that accepted at that ballot: {shown}; quorum is {quorum}")
         decided[x.name] = v
-        if v not in proposed:
+        if K(v) not in proposed:
             J.coarse("validity", "None" if v is None else "unproposed",
-                     f"{x.name} reports decided value {v!r}; proposed values: {sorted(proposed)}")
+                     f"{x.name} reports decided value {v!r}; proposed values: {sorted(map(repr, proposed))}")
         if not first:
             first.append((x.name, v))
-        elif first[0][1] != v:
+        elif K(first[0][1]) != K(v):
             J.coarse("agreement", "two-values", f"{first[0][0]} decided {first[0][1]!r}, {x.name} decides {v!r}")
 
     def invariant(ev, mon):
